@@ -121,4 +121,4 @@ func runTsNow(c TsNowCase) *vkit.Outcome {
 
 var propTsNow = vkit.NewProp([]string{P}, "c14tsnow", genTsNow, runTsNow)
 
-func TestC14TsNow(t *testing.T) { propTsNow.Check(t) }
+func TestC14TsNow(t *testing.T) { propTsNow.CrashFile = true; propTsNow.Check(t) }
